@@ -434,6 +434,9 @@ def run_property(modname, tier, seed, nshards=None, collect=False):
     if nshards is None:
         nshards = int(os.environ.get("VERIF_SHARDS", "0")) or (16 if tier == "thorough" else 12)
 
+    if hasattr(mod, "prepare"):
+        mod.prepare(tier)
+
     # 1. known findings: replay the stored reproducer
     for e in load_known(prop):
         if e.get("status") != "known":
@@ -474,8 +477,20 @@ def run_property(modname, tier, seed, nshards=None, collect=False):
     # 3. generated search, sharded
     ctx = multiprocessing.get_context("fork")
     jobs = [(modname, i, nshards, tier, seed, collect) for i in range(nshards)]
-    with ctx.Pool(nshards) as pool:
-        results = pool.map(_run_shard, jobs, chunksize=1)
+    limit = float(os.environ.get("VERIF_TIMEOUT", "0")) or (1500.0 if tier == "quick" else 6 * 3600.0)
+    pool = ctx.Pool(nshards)
+    try:
+        results = pool.map_async(_run_shard, jobs, chunksize=1).get(timeout=limit)
+    except multiprocessing.TimeoutError:
+        # a time budget hit is inconclusive, never a violation
+        pool.terminate()
+        _kill_children()
+        sys.stderr.write("HARNESS ERROR: shards did not finish within %.0f s (hang in the code under test or "
+                         "overloaded machine) - inconclusive\n" % limit)
+        return 2
+    finally:
+        pool.terminate()
+        pool.join()
     errors = [r for r in results if r["error"]]
     if errors:
         sys.stderr.write("HARNESS ERROR in shard %d:\n%s\n" % (errors[0]["shard"], errors[0]["error"]))
@@ -508,3 +523,22 @@ def run_property(modname, tier, seed, nshards=None, collect=False):
 
 def _pad(m):
     return m
+
+
+def _kill_children():
+    """Forked shards stuck inside C code ignore terminate(); kill them hard."""
+    import signal
+    me = os.getpid()
+    try:
+        for pid in os.listdir("/proc"):
+            if not pid.isdigit():
+                continue
+            try:
+                with open("/proc/%s/stat" % pid) as f:
+                    parts = f.read().rsplit(")", 1)[1].split()
+                if int(parts[1]) == me:
+                    os.kill(int(pid), signal.SIGKILL)
+            except (OSError, IndexError, ValueError):
+                continue
+    except OSError:
+        pass
